@@ -11,12 +11,18 @@ memoised mesh); TLC checks MeshReflectsParameters and emits every history of par
 transforms, reads and copies; each is replayed on real Box / Sphere / Cylinder / Capsule /
 Extrusion primitives and after every read the mesh must equal that of a primitive freshly
 constructed from the current parameters.
+
+Families added by the coverage audit live in checks/c15_families.py (placement law for creation functions,
+primitive constructors and Primitive.apply_transform, `segment=` / `bounds=` entry points, inertia, more
+polygons / engines / ring orientations, closed and multi-segment sweep paths, partial revolutions under
+placements, default section counts, magnitudes, primitives over their resolution parameter).
 """
 import itertools
 import sys
 
 import numpy as np
 
+from checks import c15_families as fam
 from harness import tlc
 from harness.common import (MachineryError, Verdict, import_trimesh, pmap, seed,
                             tier_from_args)
@@ -26,8 +32,8 @@ CFG = "INIT Init\nNEXT Next\nINVARIANT Report\nCHECK_DEADLOCK FALSE\n"
 K = 10000
 
 PCFG = """CONSTANTS
-  Params <- P3
-  TransformClasses <- TC
+  Params <- P4
+  TransformClasses <- TC4
   MaxDepth = {depth}
 SPECIFICATION Spec
 {view}
@@ -56,10 +62,18 @@ def fp(x):
     return int(round(float(x) * K))
 
 
-def solid_record(m, kind, params, bodies=1, genus=0, flat=None):
+NOB = [[0, 0, 0], [0, 0, 0]]
+
+
+def bounds_fp(m):
+    return [[fp(x) for x in m.bounds[0]], [fp(x) for x in m.bounds[1]]]
+
+
+def solid_record(m, kind, params, bodies=1, genus=0, flat=None, scale=1.0):
+    # scale: a power of two by which the whole shape was scaled (measures are recorded normalised)
     r = {"rec": "solid", "kind": kind, "params": params, "exc": "", "faces": (np.array(m.faces) + 1).tolist(), "n_vertices": int(len(m.vertices)),
-         "bodies": bodies, "genus": genus, "vol_fp": fp(m.volume), "area_fp": fp(m.area), "flat": flat is not None,
-         "shell": [[0, 0]], "holes": [], "height": 0}
+         "bodies": bodies, "genus": genus, "vol_fp": fp(float(m.volume) / scale ** 3), "area_fp": fp(float(m.area) / scale ** 2), "flat": flat is not None,
+         "shell": [[0, 0]], "holes": [], "height": 0, "bkind": "", "bounds_fp": NOB}
     if flat is not None:
         r.update(flat)
     return r
@@ -67,7 +81,7 @@ def solid_record(m, kind, params, bodies=1, genus=0, flat=None):
 
 def failed(kind, params, e):
     return {"rec": "solid", "kind": kind, "params": params, "exc": type(e).__name__ + ":" + str(e)[:60], "faces": [], "n_vertices": 0,
-            "bodies": 1, "genus": 0, "vol_fp": 0, "area_fp": 0, "flat": False, "shell": [[0, 0]], "holes": [], "height": 0}
+            "bodies": 1, "genus": 0, "vol_fp": 0, "area_fp": 0, "flat": False, "shell": [[0, 0]], "holes": [], "height": 0, "bkind": "", "bounds_fp": NOB}
 
 
 def shape_jobs(tier):
@@ -126,12 +140,17 @@ def shape_jobs(tier):
             jobs.append(("prim_extrusion", {"polygon": pname, "height": h, "which": "closed_form"}))
             jobs.append(("prim_extrusion", {"polygon": pname, "height": h, "which": "mesh"}))
     POLYS.update(polys)
+    POLYS.update(fam.POLYS2)
     PROFILES.update(profiles)
-    return jobs
+    AUDIT_KINDS.clear()
+    extra = fam.audit_jobs(tier, POLYS)
+    AUDIT_KINDS.update(k for k, _ in extra)
+    return jobs + extra
 
 
 POLYS = {}
 PROFILES = {}
+AUDIT_KINDS = set()
 
 
 def make_shape(tm, kind, p):
@@ -200,6 +219,10 @@ def _shape_chunk(jobs):
                 mesh = prim.to_mesh()
                 m = _Measures(mesh, prim.volume, prim.area) if p["which"] == "closed_form" else mesh
                 genus = -1
+            elif kind in AUDIT_KINDS:
+                m, genus, bodies, flat, scale = fam.make_audit_shape(tm, kind, p, POLYS, PROFILES, PLACEMENTS)
+                out.append(solid_record(m, kind, p, bodies=bodies, genus=genus, flat=flat, scale=scale))
+                continue
             else:
                 m, genus = make_shape(tm, kind, p)
             flat = None
@@ -212,10 +235,14 @@ def _shape_chunk(jobs):
             elif kind == "extrude":
                 shell, holes = POLYS[p["polygon"]]
                 flat = {"shell": shell, "holes": holes, "height": p["height"]}
+                if p["placement"] == "none":
+                    flat.update({"bkind": "prism", "bounds_fp": bounds_fp(m)})
             elif kind == "box":
                 e = p["extents"]
                 if all(float(x).is_integer() for x in e):
                     flat = {"shell": [[0, 0], [int(e[0]), 0], [int(e[0]), int(e[1])], [0, int(e[1])]], "holes": [], "height": int(e[2])}
+                    if p["placement"] == "none":
+                        flat.update({"bkind": "box", "bounds_fp": bounds_fp(m)})
             out.append(solid_record(m, kind, p, genus=genus, flat=flat))
         except BaseException as e:  # noqa
             out.append(failed(kind, p, e))
@@ -279,30 +306,47 @@ def series_records(tm):
 # ------------------------------------------------------------------ primitive histories
 def prim_make(tm, which, params):
     P = tm.primitives
+    res = params.get("res")
     if which == "box":
         return P.Box(extents=params["dim"], transform=params["T"])
     if which == "sphere":
-        return P.Sphere(radius=params["dim"][0], transform=params["T"], subdivisions=2)
+        return P.Sphere(radius=params["dim"][0], transform=params["T"], subdivisions=2 if res is None else res)
     if which == "cylinder":
-        return P.Cylinder(radius=params["dim"][0], height=params["dim"][1], transform=params["T"], sections=7)
+        return P.Cylinder(radius=params["dim"][0], height=params["dim"][1], transform=params["T"], sections=7 if res is None else res)
     if which == "capsule":
-        return P.Capsule(radius=params["dim"][0], height=params["dim"][1], transform=params["T"], sections=6)
+        return P.Capsule(radius=params["dim"][0], height=params["dim"][1], transform=params["T"], sections=6 if res is None else res)
     from shapely.geometry import Polygon
-    return P.Extrusion(polygon=Polygon([(0, 0), (params["dim"][0], 0), (params["dim"][0], 1), (0, 1)]), height=params["dim"][1], transform=params["T"])
+    d = 1.0 if res is None else res
+    return P.Extrusion(polygon=Polygon([(0, 0), (params["dim"][0], 0), (params["dim"][0], d), (0, d)]), height=params["dim"][1], transform=params["T"])
 
 
 def prim_params(p, which):
     pr = p.primitive
+    res = None
     if which == "box":
         dim = list(np.array(pr.extents, dtype=float))
     elif which == "sphere":
         dim = [float(pr.radius)]
+        res = int(pr.subdivisions)
     elif which in ("cylinder", "capsule"):
         dim = [float(pr.radius), float(pr.height)]
+        res = int(pr.sections)
     else:
         b = pr.polygon.bounds
         dim = [float(b[2] - b[0]), float(pr.height)]
-    return {"dim": dim, "T": np.array(pr.transform, dtype=float).copy()}
+        res = float(b[3] - b[1])
+    return {"dim": dim, "T": np.array(pr.transform, dtype=float).copy(), "res": res}
+
+
+# apply_transform classes of the state machine -> lattice maps (fam.placed_record needs them exact)
+TRANSFORMS = {"translate": [(I3, (2, 0, 1), 1)], "rotate": [(RX, (0, 1, 0), 1), (fam.RY @ RZ, (0, 0, 0), 1)],
+              "mirror": [(MIR, (0, 2, 0), 1), (np.diag([1.0, 1.0, -1.0]), (-1, 0, 4), 1)],
+              "scale": [fam.SIMILAR["scale_t"], fam.SIMILAR["similarity"], fam.SIMILAR["scale_about_point"], fam.SIMILAR["shrink_about_point"]]}
+LIMIT = 2 ** 31 // 40
+
+
+def _small(ms):
+    return all(abs(v) < LIMIT for m in ms for v in (m["vol"], m["area"], *m["com"], *m["b"][0], *m["b"][1]))
 
 
 def replay_prim(tm, which, h, rot):
@@ -310,6 +354,7 @@ def replay_prim(tm, which, h, rot):
     start = {"box": [1.0, 2.0, 3.0], "sphere": [2.0], "cylinder": [1.5, 3.0], "capsule": [1.0, 2.0], "extrusion": [2.0, 1.5]}[which]
     p = prim_make(tm, which, {"dim": start, "T": T0})
     steps = []
+    placed = []
     for j, st in enumerate(h):
         op = st["op"]
         if op == "set":
@@ -317,9 +362,30 @@ def replay_prim(tm, which, h, rot):
             which_p = st["p"]
             try:
                 if which_p == "transform":
-                    M = np.array(pr.transform, dtype=float)
-                    M[:3, 3] += [1.0, 0.5, -1.0]
-                    pr.transform = M
+                    var = (rot + j) % 3
+                    if var == 1:
+                        # in-place edit of the stored matrix
+                        pr.transform[:3, 3] += [1.0, 0.5, -1.0]
+                    elif var == 2 and which == "sphere":
+                        p.center = np.array(pr.center, dtype=float) + [1.0, 0.5, -1.0]
+                    elif var == 2 and which == "extrusion":
+                        p.slide(0.5)
+                    else:
+                        M = np.array(pr.transform, dtype=float)
+                        M[:3, 3] += [1.0, 0.5, -1.0]
+                        pr.transform = M
+                    which_p = "transform/%d" % var
+                elif which_p == "resolution":
+                    if which == "box":
+                        pr.extents[2] = float(pr.extents[2]) + 0.5     # item assignment on the stored array
+                    elif which == "sphere":
+                        pr.subdivisions = 1 if int(pr.subdivisions) == 2 else 2
+                    elif which in ("cylinder", "capsule"):
+                        pr.sections = int(pr.sections) + 2
+                    else:
+                        from shapely.geometry import Polygon
+                        b = pr.polygon.bounds
+                        pr.polygon = Polygon([(0, 0), (b[2], 0), (b[2], b[3] + 1.0), (0, b[3] + 1.0)])
                 elif which == "box":
                     e = np.array(pr.extents, dtype=float)
                     e[0 if which_p == "dim1" else 1] *= 1.5
@@ -334,16 +400,27 @@ def replay_prim(tm, which, h, rot):
                 else:
                     pr.height = float(pr.height) + (1.0 if which_p == "dim1" else 0.5)
             except BaseException as e:  # noqa
-                return {"clause": "set_parameter_raises", "step": j, "exc": type(e).__name__}, steps
+                return {"clause": "set_parameter_raises", "step": j, "exc": type(e).__name__}, steps, placed
             steps.append("set " + which_p)
         elif op == "transform":
-            M = {"translate": T4(I3, (2, 0, 1)), "rotate": T4(RX, (0, 1, 0)), "scale": T4(I3 * 2.0, (1, 0, 0))}[st["c"]]
+            variants = TRANSFORMS[st["c"]]
+            spec = variants[(rot + j) % len(variants)]
+            M = fam.lattice_matrix(spec)
             try:
+                pre = fam.meas(p.to_mesh())
                 p.apply_transform(M)
             except ValueError:
                 steps.append("transform refused")
                 continue
-            steps.append("transform " + st["c"])
+            except BaseException as e:  # noqa
+                return {"clause": "apply_transform_raises", "step": j, "exc": type(e).__name__ + ":" + str(e)[:60]}, steps, placed
+            steps.append("transform %s/%d" % (st["c"], (rot + j) % len(variants)))
+            try:
+                post = fam.meas(p.to_mesh())
+            except BaseException as e:  # noqa
+                return {"clause": "read_raises", "step": j, "exc": type(e).__name__ + ":" + str(e)[:60]}, steps, placed
+            if _small([pre, post]):
+                placed.append(fam.placed_record("apply_transform:" + which, {"steps": list(steps)}, spec, pre, post))
         elif op == "copy":
             p = p.copy() if (rot + j) % 2 else __import__("copy").deepcopy(p)
             steps.append("copy")
@@ -360,31 +437,46 @@ def replay_prim(tm, which, h, rot):
                 else:
                     ok = np.allclose(np.array(p.bounds), np.array(fresh.bounds), atol=1e-9) and np.allclose(np.array(p.to_mesh().bounds), np.array(fresh.to_mesh().bounds), atol=1e-9)
             except BaseException as e:  # noqa
-                return {"clause": "read_raises", "step": j, "exc": type(e).__name__ + ":" + str(e)[:60]}, steps
+                return {"clause": "read_raises", "step": j, "exc": type(e).__name__ + ":" + str(e)[:60]}, steps, placed
             if not ok:
-                return {"clause": "MeshReflectsParameters", "step": j, "what": st["what"]}, steps
+                return {"clause": "MeshReflectsParameters", "step": j, "what": st["what"]}, steps, placed
             if not p.is_watertight or float(p.to_mesh().volume) <= 0:
-                return {"clause": "primitive_stays_a_valid_solid", "step": j}, steps
+                return {"clause": "primitive_stays_a_valid_solid", "step": j}, steps, placed
             tv = float(p.to_mesh().volume)
             if not (tv <= float(p.volume) * (1 + 1e-9) and tv >= 0.6 * float(p.volume)):
-                return {"clause": "closed_form_volume_vs_tessellation", "step": j, "closed_form": float(p.volume), "tessellation": tv}, steps
-    return None, steps
+                return {"clause": "closed_form_volume_vs_tessellation", "step": j, "closed_form": float(p.volume), "tessellation": tv}, steps, placed
+    return None, steps, placed
 
 
 def _prim_chunk(args):
     tm = import_trimesh()
     out = []
+    recs = []
     n = 0
     for idx, h, which in args:
-        f, steps = replay_prim(tm, which, h, idx + seed())
+        f, steps, placed = replay_prim(tm, which, h, idx + seed())
         n += 1
+        recs.extend(placed)
         if f:
             f.update({"primitive": which, "steps": steps})
             out.append(f)
-    return out, n
+    return out, n, recs
+
+
+# findings of the coverage audit: attributed by a predicate on the INPUT of the record (a listed known finding turns the
+# observation into KNOWN-FINDING; while it is not listed in known_findings.jsonl it is reported as a violation)
+def audit_deviation(kind, pr, clause):
+    if kind.startswith("resolution_Capsule") and clause in ("volume_grows_with_resolution", "area_grows_with_resolution", "approaches_smooth_value"):
+        return "CapsuleIgnoresSections"
+    if kind == "revolve2" and pr.get("sections", 0) is None and pr.get("angle64", 64) < 2:
+        return "RevolveDefaultSectionsZero"
+    if kind == "magnitude" and pr.get("kind") in fam.REVOLVED and (pr["exp2"] <= -10 or pr["exp2"] >= 18) and not clause.startswith("analytic"):
+        return "RevolveAbsoluteAreaCull"
+    return None
 
 
 def main(argv):
+    import random
     tier = tier_from_args(argv)
     V = Verdict(PROP, tier)
     tm = import_trimesh()
@@ -393,53 +485,92 @@ def main(argv):
     cases = [c for r in res for c in r]
     try:
         cases += series_records(tm)
+        cases += fam.primitive_series(tm, 50)
     except BaseException as e:  # a creation function raised on plain valid parameters
         cases.append({"rec": "series", "kind": "series", "params": {}, "exc": type(e).__name__ + ":" + str(e)[:80], "vols": [0, 1], "areas": [0, 1],
                       "smooth_vol": 0, "smooth_area": 0, "radius_residual": 0, "slack": 0, "has_analytic_vol": False, "has_analytic_area": False, "analytic_vol": 0, "analytic_area": 0})
+    pj = fam.placed_jobs(tier)
+    for r in pmap(fam.placed_chunk, pj, chunk=12):
+        cases += r
+    if len(cases) < 2000:
+        raise MachineryError("too few shapes")
+    # primitive state machine: model-check, emit every history, replay on the real classes
+    d = tlc.prepare("c15/prim")
+    r = tlc.must(tlc.run(d, "PrimitiveObject", PCFG.format(depth=7, view="VIEW View", invs="INVARIANT MeshReflectsParameters")), "prim-mc")
+    states = r.distinct
+    trans = r.distinct + r.generated
+    prims = ["box", "sphere", "cylinder", "capsule", "extrusion"]
+    rng = random.Random(seed())
+    work = []
+    all_hists = []
+    emitted = 0
+    for depth, times, cap in ([(4, 1, 9000)] if tier == "quick" else [(4, 3, None), (5, 1, 60000)]):
+        r2 = tlc.must(tlc.run(d, "PrimitiveObject", PCFG.format(depth=depth, view="", invs="INVARIANT EmitLeaf"), workers=1, timeout=1500), "prim-emit")
+        hists = [h for h in r2.printed if any(s["op"] == "read" for s in h)]
+        emitted += len(hists)
+        states += r2.distinct
+        trans += r2.generated
+        if len(hists) < 5000:
+            raise MachineryError("too few primitive histories")
+        if cap is not None and len(hists) > cap:
+            hists = rng.sample(hists, cap)
+        base = len(all_hists)
+        all_hists += hists
+        for hi, h in enumerate(hists):
+            for t in range(times):
+                work.append((base + hi + t, h, prims[(hi + t * 2 + seed()) % len(prims)]))
+    res = pmap(_prim_chunk, work, chunk=60)
+    nprim = sum(x[1] for x in res)
+    nplaced = 0
+    seen = set()
+    for x in res:
+        for f in x[0]:
+            V.violation("primitive:" + f["clause"], f)
+        for rec in x[2]:
+            # the same (primitive, map, measures) arises in many histories: judge each once
+            key = (rec["kind"], str(rec["M"]), str(rec["t"]), rec["den"], str(rec["pre"]), str(rec["post"]))
+            nplaced += 1
+            if key not in seen:
+                seen.add(key)
+                cases.append(rec)
     meta = []
     for k, c in enumerate(cases):
         c["id"] = k
         meta.append({"kind": c.pop("kind"), "params": c.pop("params")})
-    if len(cases) < 500:
-        raise MachineryError("too few shapes")
-    rejects, states, wall = tlc.validate_batches("c15", "Solids", cases, CFG, timeout=1500)
+    rejects, vstates, wall = tlc.validate_batches("c15", "Solids", cases, CFG, timeout=1500)
+    states += vstates
+    trans += vstates
     for cid, clause in sorted(rejects.items()):
-        dev = None
         pr = meta[cid]["params"]
-        earcut = pr.get("engine") == "earcut" or (meta[cid]["kind"] in ("prim_extrusion", "sweep_prism") and pr.get("which") != "closed_form")
-        if meta[cid]["kind"] in ("extrude", "prim_extrusion", "sweep_prism") and clause == "analytic_area" and earcut and len(POLYS[pr["polygon"]][1]) >= 2:
+        kind = meta[cid]["kind"]
+        dev = audit_deviation(kind, pr, clause)
+        earcut = pr.get("engine", "") in ("earcut", None) or (kind in ("prim_extrusion", "sweep_prism") and pr.get("which") != "closed_form")
+        if kind in ("extrude", "extrude2", "prim_extrusion", "sweep_prism", "sweep_prism2") and clause == "analytic_area" and earcut and len(POLYS[pr["polygon"]][1]) >= 2:
             dev = "ExtrudeEarcutTJunctions"
-        V.violation(f"{meta[cid]['kind']}:{clause}", dict(meta[cid], exc=cases[cid]["exc"], vol_fp=cases[cid].get("vol_fp"), n_faces=len(cases[cid].get("faces", []))), dev)
-    # primitive state machine
-    d = tlc.prepare("c15/prim")
-    r = tlc.must(tlc.run(d, "PrimitiveObject", PCFG.format(depth=7, view="VIEW View", invs="INVARIANT MeshReflectsParameters")), "prim-mc")
-    states += r.distinct
-    trans = states + r.generated
-    depth = 4 if tier == "quick" else 5
-    r2 = tlc.must(tlc.run(d, "PrimitiveObject", PCFG.format(depth=depth, view="", invs="INVARIANT EmitLeaf"), workers=1, timeout=900), "prim-emit")
-    hists = [h for h in r2.printed if any(s["op"] == "read" for s in h)]
-    if len(hists) < 500:
-        raise MachineryError("too few primitive histories")
-    prims = ["box", "sphere", "cylinder", "capsule", "extrusion"]
-    work = []
-    for hi, h in enumerate(hists):
-        for t in range(1 if tier == "quick" else 3):
-            work.append((hi + t, h, prims[(hi + t * 2) % len(prims)]))
-    res = pmap(_prim_chunk, work, chunk=60)
-    nprim = sum(x[1] for x in res)
-    for x in res:
-        for f in x[0]:
-            V.violation("primitive:" + f["clause"], f)
+        V.violation(f"{kind.split(':')[0]}:{clause}", dict(meta[cid], exc=cases[cid]["exc"], vol_fp=cases[cid].get("vol_fp"), n_faces=len(cases[cid].get("faces", []))), dev)
     bykind = {}
     for m_ in meta:
-        bykind[m_["kind"]] = bykind.get(m_["kind"], 0) + 1
-    cov = {"states": states + r2.distinct, "transitions": trans + r2.generated, "traces_validated_against_impl": len(cases) + nprim,
-           "shapes_per_kind": bykind, "primitive_histories_replayed": nprim, "rejected": len(rejects), "tlc_wall_s": round(wall, 1),
-           "samples": [meta[len(meta) // 3], meta[-1], hists[len(hists) // 2]]}
+        k_ = m_["kind"].split(":")[0]
+        bykind[k_] = bykind.get(k_, 0) + 1
+    # coverage guards: every family must really have been exercised
+    need = {"extrude2": 150, "sweep_prism2": 80, "sweep_closed": 20, "revolve2": 100, "magnitude": 60, "defaults": 6, "placed": 150, "independent": 16,
+            "independent_rebuilt": 16, "segment": 50, "box_inertia": 30, "curved_inertia": 15, "apply_transform": 300, "resolution_Cylinder": 4,
+            "resolution_Sphere": 2, "box_bounds": 4}
+    for k_, n_ in need.items():
+        if bykind.get(k_, 0) < n_:
+            raise MachineryError(f"family {k_} nearly empty: {bykind.get(k_, 0)} records (expected >= {n_})")
+    if nplaced < 2000:
+        raise MachineryError("too few apply_transform observations")
+    cov = {"states": states, "transitions": trans, "traces_validated_against_impl": len(cases) + nprim,
+           "shapes_per_kind": bykind, "primitive_histories_emitted": emitted, "primitive_histories_replayed": nprim,
+           "apply_transform_observations": nplaced, "rejected": len(rejects), "tlc_wall_s": round(wall, 1),
+           "samples": [meta[len(meta) // 3], meta[-1], all_hists[len(all_hists) // 2]]}
     return V.finish("model_checking", cov, assumptions=[
         "fixed point 1e-4 for measures; inscribed-versus-smooth comparisons allow 5e-3 of float noise",
         "section counts 3..12 (thorough 3..16, 32), subdivisions 0..2, partial revolutions in eighths of a turn",
         "Sphere keeps its tessellation axis aligned (by design, see C04): compared against a fresh Sphere with the same parameters",
+        "placement law judged for lattice similarity maps only (signed permutation times 1, 2 or 1/2, integer or half-integer shifts)",
+        "quick replays a seeded sample of 9000 of the depth-4 histories; thorough all of them three times plus 60000 of depth 5",
     ])
 
 
